@@ -127,6 +127,7 @@ public:
 
     [[nodiscard]] key_length_type
     get_key_length_at(const std::size_t index) const {
+        YAKUSHIMA_VERIF_HOOK(YAKUSHIMA_VERIF_LOAD, &key_length_);
         return key_length_.at(index);
     }
 
@@ -137,6 +138,7 @@ public:
 
     [[nodiscard]] key_slice_type
     get_key_slice_at(const std::size_t index) const {
+        YAKUSHIMA_VERIF_HOOK(YAKUSHIMA_VERIF_LOAD, &key_slice_);
         return key_slice_.at(index);
     }
 
@@ -221,12 +223,14 @@ public:
                 ti->root_lock();
                 base_node* check = ti->load_root_ptr();
                 if (this == check) { return nullptr; }
+                YAKUSHIMA_VERIF_HOOK(YAKUSHIMA_VERIF_RETRY, this);
                 ti->root_unlock();
                 continue;
             }
             p->lock();
             base_node* check = get_parent();
             if (p == check) { return p; }
+            YAKUSHIMA_VERIF_HOOK(YAKUSHIMA_VERIF_RETRY, this);
             p->version_unlock();
             p = check;
         }
